@@ -29,7 +29,7 @@ RULE = ("chain = start (server, path, query) + 1..4 hops; hop = status (301|302|
         "network-path) x path (ascii, unicode, blank, percent) x query (0-2 args with encoded & + blank); method GET "
         "(sometimes OPTIONS/DELETE); distinct = distinct (start, hop list); non-trivial = at least one redirect was "
         "received by the client (redirect response recorded or second request seen)")
-RULE = __import__("vf.core", fromlist=["rule_add"]).rule_add(RULE, 'also an https session on a connector the application supplies (no scheme named), and redirects between two hosts that listen on the SAME port number')
+RULE = __import__("vf.core", fromlist=["rule_add"]).rule_add(RULE, 'also an https session on a connector the application supplies (no scheme named), and redirects between two hosts that listen on the SAME port number, Locations without a port (judged by where the reissued request is aimed) or without a path, HEAD requests')
 META = {"engine": "D+E io/http", "technique": "history of requests seen by real servers vs independently resolved chain",
         "level_text": "exploration: sampled chains; every Location form, status and server transition floor-counted",
         "level_note": "real loopback sockets only (Patron.redirect builds its own connector); TLS trust for the "
